@@ -17,6 +17,8 @@ func init() { register("C28", c28) }
 func c28(p *core.Program, r *core.Report) {
 	r.Rule("R1", "effect-parity matrix: every fragment write path (row: storage-mutating function x entry point that reaches it) performs the same set of derived-state updates after mutating storage (columns: row-cache invalidation, block-checksum invalidation, count-cache update); a path that skips one answers reads differently from the other paths for the same bits")
 	r.Rule("R2", "API-level parity: every API write entry that sets bits (Set via executor.executeSet, API.Import, API.ImportValue, API.ImportRoaring) records the written columns in the index's existence field when the write is not a clear, and validates shard ownership before writing locally")
+	r.Rule("R4", "the caller keeps its slices: the functions of packages pilosa and roaring that overwrite a slice parameter in place are computed (element stores, copy, in-place sorts, hand-over to such a parameter, variadic spreads; (*fragment).bulkImportStandard is the anchor); outside fragment methods a variable or field handed to such a parameter is not read again later in the function or in the same loop (a range variable rebound per iteration excepted)")
+	c28CallerKeepsItsSlices(p, r)
 	r.Rule("R3", "time-view parity: the single-bit path (Field.SetBit) and the bulk path (Field.Import) derive the time views to write from the same function (viewsByTime) with the field's quantum")
 	r.NotDecided = "equality of query answers on generated data; duplicate handling inside one batch"
 	b, err := newFxBase(p)
